@@ -30,9 +30,11 @@ ASSUMPTIONS = [
     'no conditional request headers (If-*, Range); asset overrides not configured',
 ]
 TRUSTED = [
-    'hand-written model coq/Model/C16.v of static_view.__call__/get_resource_name/get_possible_files/find_best_match/'
-    '_secure_path, FileResponse, traversal_path_info/split_path_info/decode_path_info, the *subpath route remainder '
-    '(shape-pinned, constants regenerated)',
+    'harness/c16/translate.py: Python ast -> Gallina translator for the seven core functions of static.py (control-flow '
+    'rules + primitive table, fail closed; stored fallback translation gen_fallback.json when it refuses)',
+    'hand-written reference model coq/Model/C16.v (the generated program is proved equal to it); for what is not translated '
+    '-- FileResponse, traversal_path_info/split_path_info/decode_path_info, the *subpath route remainder, __init__, '
+    'add_slash_redirect, _compile_content_encodings, _add_vary -- it is tied by shape pins and regenerated constants',
     'coq/Lib/C16Posix.v model of posixpath.join/normpath and of lexical path resolution by the OS; Lib/Utf8 (strict '
     'UTF-8), Lib/Percent (unquote, quote) -- validated by this correspondence run, not verified against CPython',
     'oracle inputs taken from the real libraries per case: directory listing (os.walk/os.stat), mimetypes.encodings_map, '
@@ -40,21 +42,29 @@ TRUSTED = [
     'pkg_resources module_path',
     'harness-side recording of os.stat / open calls (module attribute patching, no source hooks)',
 ]
-TECHNIQUE = ('Coq proof on a hand-written Gallina model (path pipeline + abstract file system with an access trace) + '
-             'regenerated constants + extracted-model differential correspondence on a real directory tree, including '
-             'the exact sequence of os.stat/open calls')
-LEVEL_TEXT = ('Machine-checked theorems for every request sequence, every mounting, both kinds of root, every file system: '
-              '_secure_path accepts exactly tuples of plain NUL-free names; every path handed to the file system is the '
-              'root or lies component-wise beneath it; every response conforms to the declarative specification '
-              '(designated file, index, add-slash redirect with its Location, 404, smallest acceptable variant labelled '
-              'with its encoding); the filemap never changes an answer.  The model is tied to the code by shape pins, '
-              'regenerated constants and a differential run against the real view on a real directory tree with sentinel '
-              'files outside the root (responses and the exact os.stat/open trace); Lib/Utf8 is compared with CPython on '
-              'all 2-byte, (nearly) all 3-byte and structured 4-byte sequences.')
-LEVEL_NOTE = ('Trusted: Coq kernel; hand-written model; posixpath/UTF-8/percent models; Python harness and oracles. '
-              'Which function static_view applies to request.path_info (traversal_path_info decodes a second time, '
-              'split_path_info does not) and the route remainder regex are regenerated facts; C16_facts_ok requires the '
-              'repaired values.')
+TECHNIQUE = ('Coq proof on a hand-written Gallina reference model (path pipeline + abstract file system with an access '
+             'trace); the core of static.py (_secure_path, _contains_invalid_element_char, static_view.get_resource_name / '
+             'find_resource_path / get_possible_files / find_best_match / __call__) is re-translated from the source on every '
+             'run by a fail-closed Python-ast -> Gallina translator (control flow mechanically, leaves through a primitive '
+             'table) and proved equal to the model; regenerated constants; extracted-model differential correspondence on a '
+             'real directory tree, including the exact sequence of os.stat/open calls')
+LEVEL_TEXT = ('Machine-checked theorems for every request sequence, every mounting, both kinds of root, every file system, any '
+              'number of view instances: _secure_path accepts exactly tuples of plain NUL-free names; every path handed to '
+              'the file system is the root or lies component-wise beneath it; every response conforms to the declarative '
+              'specification (designated file, index, add-slash redirect with its Location, 404, smallest acceptable variant '
+              'labelled with its encoding); the filemap never changes an answer.  The seven core functions of static.py are '
+              'translated from the current source on every run and proved equal to the reference model (C16_gen_*_is_model), '
+              'and the property theorems are restated about the regenerated program (C16_gen_call_contained / _conform / '
+              '_transparent, C16_gen_secure_path_spec).  The remaining tie is regenerated constants, shape pins of the '
+              'functions that are not translated, and a differential run against the real view on a real directory tree '
+              'with sentinel files outside the root (responses and the exact os.stat/open trace); Lib/Utf8 is compared with '
+              'CPython on all 2-byte, (nearly) all 3-byte and structured 4-byte sequences.')
+LEVEL_NOTE = ('Trusted: Coq kernel; the translator (harness/c16/translate.py: its control-flow rules and its primitive table of '
+              'about 40 entries, each a claim about Python / os.path / pkg_resources / WebOb / Pyramid semantics); the '
+              'hand-written model of what is not translated (router, traversal, FileResponse, __init__, add_slash_redirect, '
+              '_compile_content_encodings, _add_vary -- shape-pinned); posixpath/UTF-8/percent models; Python harness and '
+              'oracles.  Which function static_view applies to request.path_info, the route remainder regex and the '
+              'per-instance filemap are regenerated facts; C16_facts_ok / C16_filemap_per_instance require the repaired values.')
 ALLOWED_AXIOMS = ()
 
 BASE = os.path.join(B.BUILD, 'C16', 'world')
